@@ -73,11 +73,11 @@ def run(ctx):
         # 1. design-level model check; 2. pool.  quick: side by side (3 + 1 TLC workers); thorough: one after the other
         if ctx.quick:
             f_mc = ex.submit(model_check, ctx, cfgs, 3)
-            recs = abigen.gen_pool(ctx)
+            recs = abigen.gen_pool(ctx, quick_parts=8)
             f_mc.result()
         else:
             model_check(ctx, cfgs, 4)
-            recs = abigen.gen_pool(ctx)
+            recs = abigen.gen_pool(ctx, quick_parts=8)
         # 3. programs: every package in debug, every 6th (quick: the first) also in release; return-data scripts alongside
         pkgs = abigen.c09_packages(recs, "ca", per_pkg=36)
         # cases placed around the capacity of the encoder's buffer (package of their own; quick: also in release)
@@ -119,7 +119,7 @@ def run(ctx):
         "traces_validated_against_impl": validated,
         "type_trees_in_pool": len(recs), "type_trees_by_depth": depth, "observations": kinds,
         "buffer_boundary_cases": sum(len(p["items"]) for p in bpk), "packages": len(pkgs), "packages_also_release": len(rel), "return_data_scripts": len(rjobs), "build_or_run_failures": len(failures),
-        "pool": {"tlc_seed": 9, "slice": ("VERIF_SEED mod 16 = %d of the depth<=1 trees + named nestings" % (ctx.seed % 16)) if ctx.quick else "all"},
+        "pool": {"tlc_seed": 9, "slice": ("VERIF_SEED mod 8 = %d of the depth<=1 trees + named nestings" % (ctx.seed % 8)) if ctx.quick else "all"},
         "constants": {"model_cfgs": cfgs}, "binding_selftest": selftest,
         "samples": [{k: sample[k] for k in ("id", "t", "v", "logs", "out")}] if sample else [],
     }, assumptions=[
